@@ -1967,6 +1967,20 @@ G32 = 2 ** 32
 
 def gen_giant(kind):
     def g(rng, tier):
+        for op, meta in g0(rng, tier):
+            yield op, meta
+            if kind != "memmem":
+                yield op, dict(meta, cfg="noavx2", family=meta["family"] + "-sse2")      # the SSE2 routines
+
+    def g0(rng, tier):
+        if kind == "iter":
+            yield ("giant iter %d %d,%d,%d,%d" % (G32 + 300, 7, G32 - 1, G32, G32 + 200), dict(family="giant-iter", modelless=True))
+            return
+        if kind == "rmemmem":
+            # (a reverse search has no prefilter: 4 GiB take ~10 s, so only in the thorough tier)
+            if tier == "thorough":
+                yield ("giant rmemmem %d 4142 %d" % (G32 + 2 ** 20, 100), dict(family="giant-rmemmem", modelless=True))
+            return
         if kind == "count":
             yield ("giant count %d 4" % (G32 + 4133), dict(family="giant-count", modelless=True))
             yield ("giant count %d 0" % (G32 + 64), dict(family="giant-count", modelless=True))
@@ -1990,6 +2004,8 @@ _wrap("C01", gen_giant("find"))
 _wrap("C02", gen_giant("rfind"))
 _wrap("C03", gen_giant("memmem"))
 _wrap("C14", gen_giant("memmem"))
+_wrap("C06", gen_giant("iter"))
+_wrap("C04", gen_giant("rmemmem"))
 
 
 def gen_single_byte_finders(rng, tier):
